@@ -322,6 +322,8 @@ func auxAlphabet() []refimpl.AuxField {
 	}
 	add(refimpl.AuxField{Type: 'Z', Str: ""})
 	add(refimpl.AuxField{Type: 'Z', Str: "x y"})
+	add(refimpl.AuxField{Type: 'Z', Str: " lead and trail "}) // Z is [ !-~]*: blanks at either end are data
+	add(refimpl.AuxField{Type: 'Z', Str: " "})
 	add(refimpl.AuxField{Type: 'H', Str: ""})
 	add(refimpl.AuxField{Type: 'H', Str: "1ae3"}) // the case of hex digits is not judged: lower case as the library writes it
 	for _, sub := range []byte("cCsSiI") {
